@@ -16,6 +16,31 @@ CHECKS = {
    text="Every model of nine finite product spaces (module/CodeView menus, thread layouts for 9 CPUs, memory placements incl. top of address space, system/misc/exception menus, list lengths 0..40, stream presence, duplicate directory entries) is serialised through minidump-synth in both byte orders and both memory-list formats, parsed by the real library and compared with the model field by field, by address lookup of every region byte, with independently re-derived debug/code ids and versions, and across the four parses. Complete enumeration of the stated products, no sampling.",
    note="Trusted: minidump-synth/test_assembler as serialiser, scroll derive symmetry for contexts synth cannot write, the hand-written reference derivations in c02.rs, debugid formatting. Known finding F18 (ELF build-id debug id differs LE vs BE).",
    design_ref="3/C02"),
+ "C04": dict(level="exploration", engine="E1",
+   technique="bounded-exhaustive enumeration of generated stack programs, differential against generated ground truth through the real walk_stack",
+   text="Every stack program up to the depth/size/style bounds (9 arch/OS variants; per-frame technique in {CFI, frame pointer, scan, STACK WIN framedata, STACK WIN fpo, CFI leaf} x frame sizes incl. the scan-window edges 40/160/128/256 words x 8 styles: saved-register subsets, split CFI records, Windows slack 0..240, pointer-auth bits, numeric register spellings, one or two modules; full technique product to depth 4 [thorough 5] plus uniform chains of depth up to 64) is laid out with its true call chain by an independent generator, walked by the real walk_stack and compared frame by frame: return address, instruction adjustment, sp, recovered callee-saved registers, trust label, module, function, and the end of the walk.",
+   note="Trusted: the generator/oracle in stackgen.rs (conventions of DESIGN Appendix A), MinidumpContext register access (C18). F20 (MIPS64 scanned frames) and F21 (ARM fp alias in CFI forwarding) were found by this check and repaired.",
+   design_ref="3/C04"),
+ "C05": dict(level="exploration", engine="E1",
+   technique="bounded-exhaustive product of small stacks x contexts x validity x symbols x modules x placements, invariant checking on every returned CallStack with a frame-budget sentinel",
+   text="All stacks of N=4 [thorough 5] words over a K=8 [9] value alphabet (0, 4095, in/outside a function, stack self-references, one-past-the-end, all-ones) x 8 register contexts x 3 validity sets x 7-9 symbol menus (none, FUNC only, CFA above/equal/below sp, CFA from memory, memory-free CFI, STACK WIN) x module menus x 2 placements (middle, top of the address space) x 9 arch variants are walked; the statement's invariant is evaluated on every returned call stack (context frame, return address >= 4096, instruction adjustment, trust, strictly increasing sp with the ARM/MIPS first-frame exception, scanned return address == word below sp, module/function cover) and a callback sentinel cuts walks at stack bytes + 2 frames.",
+   note="Trusted: the invariant code in c05.rs and its independent word reader. F7 (unbounded memory-free CFI walk), F19 (amd64 overflow) and F20 were found by this check and repaired.",
+   design_ref="3/C05"),
+ "C06": dict(level="exploration", engine="E1",
+   technique="bounded-exhaustive enumeration of all STACK CFI rule programs up to a length bound, differential against a documentation-derived reference interpreter",
+   text="Every token sequence of length <= 4 [thorough 5] over a 26-token alphabet (operators, .cfa/.ra/.undef, boundary literals, known/unknown registers with and without $, junk) hosted in the CFA, RA and a general-register rule, every stack-valid expression up to 2 tokens longer, and a structure product (225 INIT rule lists x delta records x address layouts x lookup addresses x register files x memory images) are parsed and evaluated by the real SymbolFile::walk_frame (and amd64 walk_stack) and compared with an independent reference interpreter written from walker.rs' module documentation: Some/None, cfa, ra, set and cleared registers.",
+   note="Trusted: the reference interpreter refcfi.rs and the mock FrameWalker; carve-outs (signedness of / and %, equal-address deltas, alias-colliding labels) in the evidence assumptions.",
+   design_ref="3/C06"),
+ "C07": dict(level="exploration", engine="E1",
+   technique="bounded-exhaustive enumeration of STACK WIN programs / FPO parameter products, differential against a documentation-derived reference interpreter + real x86 walk_stack validity check",
+   text="Every program of length <= 4 [thorough 5] over a 30-token alphabet, every stack-valid program up to 3 tokens longer, the FPO product (size menu^3 incl. 2^31 and 2^32-1, allocates_base_pointer, esp incl. <8 and top of space, ebp/ebx presence, grand-callee settings, leftover return address), the size-field product, two-record overlap arrangements, and an x86 walk_stack space are evaluated by the real code and compared with an independent reference (refwin.rs): result, reported registers and values, caller validity set; extreme size fields must fail cleanly.",
+   note="Trusted: the reference interpreter refwin.rs (the '@' and leftover-return rules come from code comments). F2/F3 (overflow panics) were found and repaired; F1 (registers not cleared) is a known finding.",
+   design_ref="3/C07"),
+ "C16": dict(level="fault_enumeration", engine="E4",
+   technique="exhaustive fault / cancellation-point enumeration of a short download history against the real HttpSymbolSupplier over a scripted loopback HTTP server, file-system invariant oracle",
+   text="Every scenario of a finite script space runs the real supplier over loopback TCP: the connection cut after EVERY byte count under content-length / chunked / close-delimited framing, every two-chunk split, trickles, each line corrupted, missing final newline, error/redirect statuses, stall, the client future dropped after each server event (client quiesced) at many split points, pre-existing cache entry, unusable cache/tmp directories, two servers, failure-then-success histories, and the same for opaque file downloads. After each run cache/ and tmp/ are walked (entry only after Ok, exactly downloaded bytes + INFO URL note, no stray temp file) and a fresh supplier with a dead server must reload an equal SymbolFile.",
+   note="Trusted: the scripted server; poll boundaries inside hyper/tokio are not enumerable (cancellation happens after each server event at client quiescence); SIGKILL not enumerated.",
+   design_ref="3/C16"),
  "C08": dict(level="exploration", engine="E1",
    technique="bounded-exhaustive enumeration of entry sequences through all 12 range-table builders, brute-force differential against the input list",
    text="All input-ordered sequences of <= 3 (thorough 4) entries over an address domain containing both ends of the address space, through every table builder (generic IntoRangeMapSafe, the parser-local copy via FUNC/line/CFI/WIN text, module, memory (both descriptors), memory-info, Linux-maps and unloaded-module lists, and the same read back from synthesised dumps); every lookup and iteration is compared with a brute-force filter over the input list (soundness, sortedness/disjointness, completeness for non-intersecting entries, exact set for unloaded modules).",
